@@ -415,9 +415,12 @@ class SimNet:
         # `batch` datagrams per iteration (selector-faithful with batch=1)
         sk = target if not isinstance(target, tuple) else ("udp", target)
         sk = self._sock_key(sk)
-        self.loop.at(now + d["lat"], deliver, sock=sk, label="udp")
+        # "_c": addressed to a socket of the process under test (matters only for SimLoop.stall)
+        to_client = target[0] == self.local_ip if isinstance(target, tuple) else isinstance(target, SimDatagramTransport)
+        lab = "udp_c" if to_client else "udp"
+        self.loop.at(now + d["lat"], deliver, sock=sk, label=lab)
         if "dup" in d:
-            self.loop.at(now + d["lat"] + d["dup"], deliver, sock=sk, label="udp_dup")
+            self.loop.at(now + d["lat"] + d["dup"], deliver, sock=sk, label=lab + "_dup")
 
     _sock_keys: dict
 
